@@ -1,4 +1,5 @@
 import PharmpyProofs.C12.CanonLemmas
+import PharmpyProofs.C12.DerivLemmas
 /-
   C12 — Serialisation round-trips; model hashes identify models.
 
@@ -222,7 +223,47 @@ end
 theorem encode_repaired_canonical_on_witness : wSys1.canon.toDict strCodec = wSys2.canon.toDict strCodec :=
   encode_repaired_canonical wSys1 wSys2 (by decide) (by decide) (by decide)
 
+/-! ### Construction-order independence: `EstimationStep._canonicalize_derivatives` -/
+
+/-- The canonical form does not depend on the order of the arguments inside each derivative
+    (any number of derivatives of any order): `σ` rearranges every derivative arbitrarily. -/
+theorem canonicalize_derivatives_inner_invariant (σ : List String → List String) (hσ : ∀ d, (σ d).Perm d)
+    (ds : List (List String)) : canonDerivs (ds.map σ) = canonDerivs ds :=
+  canonDerivs_inner σ hσ ds
+
+/-- It does not depend on the order of the list of derivatives either — provided no two
+    derivatives share their first (sorted) argument: the code sorts on `str(der[0])` only. -/
+theorem canonicalize_derivatives_outer_invariant_partial (ds ds' : List (List String)) (hp : ds.Perm ds')
+    (hnd : ((ds.map sortNames).map List.head?).Nodup) : canonDerivs ds = canonDerivs ds' :=
+  canonDerivs_outer ds ds' hp hnd
+
+/-- Without the side condition it is false: d/dEPS_1 and d²/(dEPS_1 dETA_1) — exactly what the default
+    `add_derivative(model)` requests — stay in the order in which they were given. -/
+theorem canonicalize_derivatives_outer_false_witness :
+    [["EPS_1"], ["EPS_1", "ETA_1"]].Perm [["EPS_1", "ETA_1"], ["EPS_1"]] ∧
+    canonDerivs [["EPS_1"], ["EPS_1", "ETA_1"]] ≠ canonDerivs [["EPS_1", "ETA_1"], ["EPS_1"]] := by
+  constructor
+  · exact List.Perm.swap _ _ _
+  · decide
+
+theorem canonicalize_derivatives_idempotent (ds r : List (List String)) (h : canonDerivs ds = some r) :
+    canonDerivs r = some r :=
+  canonDerivs_idem ds r h
+
+/-- The repair (outer sort on the whole sorted name tuple) is invariant under permuting the list and
+    permuting every inner tuple, and idempotent. -/
+theorem canonicalize_derivatives_repaired_invariant (σ : List String → List String) (hσ : ∀ d, (σ d).Perm d)
+    (ds ds' : List (List String)) (hp : ds.Perm ds') :
+    canonDerivsRepaired (ds.map σ) = canonDerivsRepaired ds' :=
+  canonDerivsRepaired_inv σ hσ ds ds' hp
+
+theorem canonicalize_derivatives_repaired_idempotent (ds : List (List String)) :
+    canonDerivsRepaired (canonDerivsRepaired ds) = canonDerivsRepaired ds :=
+  canonDerivsRepaired_idem ds
+
 /-! ### Non-vacuity: the hypotheses are satisfiable on non-trivial inputs -/
+
+example : canonDerivs [["ETA_2"], ["ETA_1", "EPS_1"]] = canonDerivs [["EPS_1", "ETA_1"], ["ETA_2"]] := by decide
 
 example : strCodec.Lawful := ⟨fun _ => rfl, fun _ => rfl⟩
 
